@@ -326,15 +326,24 @@ impl GraphDatabaseService {
     pub fn mutation_stream(&self) -> (mpsc::Sender<(String, Option<Parameters>)>, MutateReceiver) {
         let (send, mut recv) = mpsc::channel::<(String, Option<Parameters>)>(2);
         let (send_res, recv_res) = mpsc::channel::<Result<MutationQuery>>(2);
+        //the results are relayed to be able to compute the daily log once the last mutation has been written
+        let (inner_send, mut inner_recv) = mpsc::channel::<Result<MutationQuery>>(2);
         let dbsender = self.sender.clone();
         tokio::spawn(async move {
             while let Some((mutate, param_opt)) = recv.recv().await {
                 let msg = DbMessage::MutateStream(
                     mutate,
                     param_opt.unwrap_or_default(),
-                    send_res.clone(),
+                    inner_send.clone(),
                 );
                 let _ = dbsender.send(msg).await;
+            }
+        });
+        let dbsender = self.sender.clone();
+        tokio::spawn(async move {
+            //ends when the stream is closed and every mutation has been answered
+            while let Some(result) = inner_recv.recv().await {
+                let _ = send_res.send(result).await;
             }
             let _ = dbsender.send(DbMessage::ComputeDailyLog()).await;
         });
